@@ -65,3 +65,34 @@ Lemma b_value_start : forall s k, gen_value_start s k = m_value_start s k.  Proo
 Lemma b_value_len : forall l k, gen_value_len l k = m_value_len l k false
                                 /\ gen_value_keep_len (gen_value_len l k) = m_value_len l k true.
 Proof. split; bridge. Qed.
+
+(* ---------- wrapped FASTA: MultiLineFastaBuffer.from_raw_buffer / get_data / _modify_ends_for_carriage_returns ---------- *)
+Ltac bridge_fa := intros; cbv beta delta [
+  gen_fa_marker gen_fa_next gen_fa_cut gen_fa_line_start gen_fa_entry_line gen_fa_last_end gen_fa_cr_window gen_fa_cr_probe
+  gen_fa_cr_byte gen_fa_cr_elem_probe gen_fa_cr_adjust gen_fa_n_lines gen_fa_total gen_fa_name_from
+  m_fa_next m_fa_cut m_fa_line_start m_fa_entry_line m_fa_last_end m_fa_cr_window m_fa_n_lines m_fa_total m_fa_name_from
+  m_cr_probe m_cr_byte m_cr_adjust] zeta;
+  first [reflexivity | ring | lia].
+(* the byte after a line break is compared with '>'; the chunk is cut one past the last line break that is followed by '>' *)
+Lemma b_fa_scan : forall p, gen_fa_marker = 62 /\ gen_fa_next p = m_fa_next p /\ gen_fa_cut p = m_fa_cut p.
+Proof. repeat split; bridge_fa. Qed.
+(* line k starts one past line break k-1 (line 0 at 0); the last line ends at size-1; header line of entry k+1 is line new_entries[k]+1 *)
+Lemma b_fa_lines : forall p size, gen_fa_line_start p = m_fa_line_start p /\ gen_fa_last_end size = m_fa_last_end size
+                                  /\ gen_fa_entry_line p = m_fa_entry_line p.
+Proof. repeat split; bridge_fa. Qed.
+(* CR: looked for before the first 10 line ends, removed per line *)
+Lemma b_fa_cr : forall e c, gen_fa_cr_window = m_fa_cr_window /\ gen_fa_cr_probe e = m_cr_probe e /\ gen_fa_cr_elem_probe e = m_cr_probe e
+                            /\ gen_fa_cr_byte = m_cr_byte /\ gen_fa_cr_adjust e c = m_cr_adjust e c.
+Proof. repeat split; bridge_fa. Qed.
+(* sequence lines per entry = distance between header lines - 1, the list closed by (number of line breaks + 1); name = line minus its first byte *)
+Lemma b_fa_counts : forall d nl, gen_fa_n_lines d = m_fa_n_lines d /\ gen_fa_total nl = m_fa_total nl /\ gen_fa_name_from = m_fa_name_from.
+Proof. repeat split; bridge_fa. Qed.
+
+(* ---------- GFF3 / wig interior comments: DelimitedBufferWithInernalComments ---------- *)
+Ltac bridge_ic := intros; cbv beta delta [gen_ic_probe gen_ic_end_del gen_ic_sentinel gen_ic_start gen_ic_n_fields gen_ic_cr_adjusts
+  m_ic_probe m_ic_end_del m_ic_sentinel m_ic_start m_ic_n_fields ic_cr_adjusts] zeta; first [reflexivity | ring | lia].
+(* the byte after a line break is compared with '#'; the delimiter after that line break is deleted from the ends; -1 is put
+   in front of the starts; starts are delimiters + 1; the column count is the index of the first line break + 1; CR adjusted *)
+Lemma b_ic : forall d k i, gen_ic_probe d = m_ic_probe d /\ gen_ic_end_del k = m_ic_end_del k /\ gen_ic_sentinel = m_ic_sentinel
+                           /\ gen_ic_start d = m_ic_start d /\ gen_ic_n_fields i = m_ic_n_fields i /\ gen_ic_cr_adjusts = ic_cr_adjusts.
+Proof. repeat split; bridge_ic. Qed.
